@@ -4,43 +4,50 @@
 (* file, parse it (a malformed version fails to parse) and swap the snapshot in     *)
 (* one step; validators begin, read the snapshot and answer.                         *)
 (* InPlace = TRUE models the named deviation "the map is updated entry by entry":    *)
-(* TLC must then report NoTornRead (selftest).                                       *)
+(* TLC must then report NoTornRead (selftest).  Leftover = TRUE models the named      *)
+(* deviation "a parse that fails half-way leaves the entries it had read in a buffer   *)
+(* that the next successful reload merges in" (content of a malformed version = its    *)
+(* well-formed prefix): again NoTornRead.                                               *)
 EXTENDS Naturals, Sequences, FiniteSets, TLC
 
 CONSTANTS Versions,      \* sequence of [good : BOOLEAN, content : set of entries]; version 1 is loaded at start
-          Reloaders, Validators, InPlace
+          Reloaders, Validators, InPlace, Leftover
 
 VARIABLES file,     \* index of the version on disk
           mem,      \* set of entries in memory
           memv,     \* ghost: the version mem equals (0 while torn)
           rl,       \* [Reloaders -> [pc, v, todo]]
           vl,       \* [Validators -> [pc, lo, seen]]  lo = version completely loaded when the validation began
-          loaded    \* highest version whose reload has completed
-vars == <<file, mem, memv, rl, vl, loaded>>
+          loaded,   \* highest version whose reload has completed
+          spare     \* (Leftover only) entries a failed parse left behind
+vars == <<file, mem, memv, rl, vl, loaded, spare>>
 
 N == Len(Versions)
 RECURSIVE Eff(_)
 Eff(v) == IF Versions[v].good THEN v ELSE Eff(v - 1)      \* a malformed version leaves the previous contents in force
 
-Init == /\ file = 1 /\ mem = Versions[1].content /\ memv = 1 /\ loaded = 1
+Init == /\ file = 1 /\ mem = Versions[1].content /\ memv = 1 /\ loaded = 1 /\ spare = {}
         /\ rl = [r \in Reloaders |-> [pc |-> "idle", v |-> 0, todo |-> {}]]
         /\ vl = [x \in Validators |-> [pc |-> "idle", lo |-> 0, seen |-> {}, seenv |-> 0]]
 
-Write == /\ file < N /\ file' = file + 1 /\ UNCHANGED <<mem, memv, rl, vl, loaded>>
+Write == /\ file < N /\ file' = file + 1 /\ UNCHANGED <<mem, memv, rl, vl, loaded, spare>>
 \* the watcher fires: a reloader reads what is on disk now
 Read(r) == /\ rl[r].pc = "idle" /\ Eff(file) # memv
            /\ rl' = [rl EXCEPT ![r] = [pc |-> "parsed", v |-> file, todo |-> {}]]
-           /\ UNCHANGED <<file, mem, memv, vl, loaded>>
+           /\ UNCHANGED <<file, mem, memv, vl, loaded, spare>>
 Swap(r) == /\ rl[r].pc = "parsed"
            /\ IF ~Versions[rl[r].v].good
               THEN /\ rl' = [rl EXCEPT ![r].pc = "idle"] /\ UNCHANGED <<mem, memv, loaded>>      \* parse error: previous contents stay
+                   /\ spare' = IF Leftover THEN Versions[rl[r].v].content ELSE spare
               ELSE IF ~InPlace
-              THEN /\ mem' = Versions[rl[r].v].content /\ memv' = rl[r].v
+              THEN /\ mem' = Versions[rl[r].v].content \cup spare
+                   /\ memv' = IF spare \subseteq Versions[rl[r].v].content THEN rl[r].v ELSE 0
+                   /\ spare' = {}
                    /\ loaded' = (IF rl[r].v > loaded THEN rl[r].v ELSE loaded)
                    /\ rl' = [rl EXCEPT ![r].pc = "idle"]
               ELSE \* deviation: remove / add entry by entry
                    /\ rl' = [rl EXCEPT ![r] = [pc |-> "mutating", v |-> rl[r].v, todo |-> (mem \ Versions[rl[r].v].content) \cup (Versions[rl[r].v].content \ mem)]]
-                   /\ memv' = 0 /\ UNCHANGED <<mem, loaded>>
+                   /\ memv' = 0 /\ UNCHANGED <<mem, loaded, spare>>
            /\ UNCHANGED <<file, vl>>
 Mutate(r) == /\ rl[r].pc = "mutating"
              /\ IF rl[r].todo = {}
@@ -49,13 +56,13 @@ Mutate(r) == /\ rl[r].pc = "mutating"
                 ELSE \E e \in rl[r].todo :
                      /\ mem' = IF e \in mem THEN mem \ {e} ELSE mem \cup {e}
                      /\ rl' = [rl EXCEPT ![r].todo = @ \ {e}] /\ UNCHANGED <<memv, loaded>>
-             /\ UNCHANGED <<file, vl>>
+             /\ UNCHANGED <<file, vl, spare>>
 
 Begin(x)  == /\ vl[x].pc = "idle" /\ vl' = [vl EXCEPT ![x] = [pc |-> "begun", lo |-> loaded, seen |-> {}, seenv |-> 0]]
-             /\ UNCHANGED <<file, mem, memv, rl, loaded>>
+             /\ UNCHANGED <<file, mem, memv, rl, loaded, spare>>
 ReadMem(x) == /\ vl[x].pc = "begun" /\ vl' = [vl EXCEPT ![x].pc = "done", ![x].seen = mem, ![x].seenv = memv]
-              /\ UNCHANGED <<file, mem, memv, rl, loaded>>
-End(x)    == /\ vl[x].pc = "done" /\ vl' = [vl EXCEPT ![x].pc = "idle"] /\ UNCHANGED <<file, mem, memv, rl, loaded>>
+              /\ UNCHANGED <<file, mem, memv, rl, loaded, spare>>
+End(x)    == /\ vl[x].pc = "done" /\ vl' = [vl EXCEPT ![x].pc = "idle"] /\ UNCHANGED <<file, mem, memv, rl, loaded, spare>>
 
 Next == Write \/ (\E r \in Reloaders : Read(r) \/ Swap(r) \/ Mutate(r)) \/ (\E x \in Validators : Begin(x) \/ ReadMem(x) \/ End(x))
 
